@@ -598,8 +598,10 @@ func (a *analysis) oracleC05() verdict {
 			if lastF >= 0 && fi != lastF+1 && !clipped {
 				return a.fv("vanish-return", "bar %d is shown in frame %d, absent from frame(s) %d..%d, and back in frame %d", bi, lastF, lastF+1, fi-1, fi)
 			}
-			if lastK >= 0 && g.K != lastK+1 && !clipped {
-				return a.fv("render-count", "bar %d: render counter went %d -> %d between consecutive frames %d and %d (a bar is rendered exactly once per cycle)", bi, lastK, g.K, lastF, fi)
+			// the row of a frame is drawn for that frame: its render counter is newer than
+			// the previous frame's (how often the library calls a decorator per cycle is its business)
+			if lastK >= 0 && g.K <= lastK && !clipped {
+				return a.fv("render-count", "bar %d: render counter went %d -> %d between consecutive frames %d and %d (a row drawn earlier is shown again)", bi, lastK, g.K, lastF, fi)
 			}
 			lastK, lastF = g.K, fi
 		}
